@@ -57,7 +57,7 @@ def run(ctx) -> None:
         if a["has,"] and a["has("] and a["has)"]:
             cls = "&".join(k for k, v in a.items() if v)
             raw = [o for o in outs if _raw_slot(o)]
-            ctx.check(bool(outs) and not raw, "C01.H.operand-fields-comma-free", "OperandsParser._process_operand_elem",
+            ctx.check(bool(outs) and not raw, "C01.H.operand-fields-comma-free", "OperandsParser.parse (one operand)",
                       f"class[{cls}] -> {outs or raises}"[:220],
                       f"an operand with ',' inside parentheses [{cls}] reaches the stream built from comma-split pieces only")
     # H: every operand form objdump prints reaches the stream in its normal form (token templates; incl. the 16-bit forms)
